@@ -511,3 +511,218 @@ pub fn pair_defs() -> BoxedStrategy<DefSpec> {
         })
         .boxed()
 }
+
+// ---------------------------------------------------------------------------------------------
+// C10: literal family.
+
+pub const META_CHARS: &[char] = &[
+    '\\', '.', '+', '*', '?', '(', ')', '|', '[', ']', '{', '}', '^', '$', '#', '&', '-', '~', ' ', '\n', '\t', '"', '\'', '/', 'a', 'B', 'k', 'K',
+    's', 'S', 'i', 'I', 'é', 'É', 'ß', 'σ', 'ς', 'Σ', '\u{212A}', 'ſ', 'İ', 'ı', '日', 'ǅ', 'z', '0',
+];
+
+pub fn literal_defs() -> BoxedStrategy<DefSpec> {
+    let str_lit = vec(select(META_CHARS), 1..=5).prop_map(|cs| LitSpec::str(cs.into_iter().collect::<String>()));
+    let byte_lit = vec(prop_oneof![3 => any::<u8>(), 2 => select(&b"aZk.*(\\[\x00\x7f\x80\xff\xc3\xa9"[..])], 1..=5).prop_map(LitSpec::bytes);
+    let tok = (prop_oneof![3 => str_lit, 2 => byte_lit], prop::bool::weighted(0.5)).prop_map(|(lit, ic)| {
+        let mut p = PatSpec::token(lit);
+        p.ignore_case = ic;
+        p
+    });
+    let cfg_s = GenCfg { utf8: true, unicode: true, looks: false, byte_items: false, flags: true, max_depth: 2 };
+    let cfg_b = GenCfg { utf8: false, unicode: false, looks: false, byte_items: true, flags: false, max_depth: 2 };
+    let rx = prop_oneof![
+        3 => pattern_ast(&cfg_s).prop_map(|a| (LitSpec::str(a.text()), a.has_greedy_dot())),
+        2 => pattern_ast(&cfg_b).prop_map(|a| {
+            // byte-string regex: ASCII text of the pattern (\xNN escapes are ASCII text)
+            (LitSpec::bytes(a.text().into_bytes()), a.has_greedy_dot())
+        }),
+    ]
+    .prop_map(|(lit, greedy)| {
+        let mut p = PatSpec::regex(lit);
+        p.ignore_case = true;
+        p.allow_greedy = greedy;
+        p
+    });
+    // shapes: single token; single regex ignore(case); skip ignore(case) + token; two tokens with distinct priorities
+    prop_oneof![
+        4 => tok.clone().prop_map(|t| (vec![], vec![t])),
+        2 => rx.clone().prop_map(|r| (vec![], vec![r])),
+        2 => (rx.clone(), tok.clone()).prop_map(|(r, mut t)| {
+            t.priority = Some(50);
+            let mut r = r;
+            r.priority = Some(1);
+            (vec![r], vec![t])
+        }),
+        2 => (tok.clone(), tok.clone()).prop_map(|(mut a, mut b)| {
+            a.priority = Some(7);
+            b.priority = Some(9);
+            (vec![], vec![a, b])
+        }),
+    ]
+    .prop_map(|(skips, toks)| {
+        let any_bytes = skips.iter().chain(toks.iter()).any(|p: &PatSpec| p.lit.bytes && std::str::from_utf8(&p.lit.raw).is_err())
+            || skips.iter().chain(toks.iter()).any(|p: &PatSpec| p.lit.bytes && p.kind == crate::spec::PatKind::Regex);
+        DefSpec { utf8: !any_bytes, subpatterns: vec![], skips, variants: toks.into_iter().map(|t| vec![t]).collect() }
+    })
+    .boxed()
+}
+
+// ---------------------------------------------------------------------------------------------
+// C11: subpattern family. ASTs carry `Ref(name)`; rendered once with (?&name) and once inlined.
+
+fn inline(a: &Ast, subs: &[(String, bool, Ast)]) -> Ast {
+    match a {
+        Ast::Ref(n) => {
+            let (_, bytes, body) = subs.iter().find(|(name, _, _)| name == n).expect("generated ref is defined");
+            Ast::Group(Box::new(inline(body, subs)), if *bytes { "(?-u:" } else { "(?u:" })
+        }
+        Ast::Cat(v) => Ast::Cat(v.iter().map(|x| inline(x, subs)).collect()),
+        Ast::Alt(v) => Ast::Alt(v.iter().map(|x| inline(x, subs)).collect()),
+        Ast::Rep(s, r) => Ast::Rep(Box::new(inline(s, subs)), *r),
+        Ast::Group(s, k) => Ast::Group(Box::new(inline(s, subs)), k),
+        other => other.clone(),
+    }
+}
+
+/// Insert references: replace some leaves of `a` by Ref(names[i]).
+fn with_refs(a: Ast, picks: &[u8], names: &[String], counter: &mut usize) -> Ast {
+    match a {
+        Ast::Lit(_) | Ast::Class(_) | Ast::Byte(_) => {
+            let k = *counter;
+            *counter += 1;
+            let pick = picks[k % picks.len()];
+            if !names.is_empty() && pick < 110 {
+                Ast::Ref(names[pick as usize % names.len()].clone())
+            } else {
+                a
+            }
+        }
+        Ast::Cat(v) => Ast::Cat(v.into_iter().map(|x| with_refs(x, picks, names, counter)).collect()),
+        Ast::Alt(v) => Ast::Alt(v.into_iter().map(|x| with_refs(x, picks, names, counter)).collect()),
+        Ast::Rep(s, r) => Ast::Rep(Box::new(with_refs(*s, picks, names, counter)), r),
+        Ast::Group(s, k) => Ast::Group(Box::new(with_refs(*s, picks, names, counter)), k),
+        other => other,
+    }
+}
+
+fn count_refs(a: &Ast) -> usize {
+    match a {
+        Ast::Ref(_) => 1,
+        Ast::Cat(v) | Ast::Alt(v) => v.iter().map(count_refs).sum(),
+        Ast::Rep(s, _) | Ast::Group(s, _) => count_refs(s),
+        _ => 0,
+    }
+}
+
+#[derive(Clone, Debug)]
+pub struct SubCase {
+    pub def: DefSpec,
+    /// an undefined / forward reference was planted: the derive must reject
+    pub must_reject: bool,
+    pub max_ref_depth: usize,
+}
+
+pub fn subpattern_defs() -> BoxedStrategy<SubCase> {
+    let cfg = GenCfg { utf8: true, unicode: true, looks: false, byte_items: false, flags: true, max_depth: 2 };
+    let cfg_ascii = GenCfg { utf8: true, unicode: false, looks: false, byte_items: false, flags: false, max_depth: 2 };
+    let body = prop_oneof![3 => pattern_ast(&cfg), 2 => pattern_ast(&cfg_ascii)];
+    let names = Just(vec!["s1".to_string(), "_x".to_string(), "A0".to_string(), "s10".to_string()]);
+    (
+        vec((body.clone(), prop::bool::weighted(0.25)), 1..=3),
+        vec(pattern_ast(&cfg), 1..=3),
+        vec(any::<u8>(), 12),
+        names,
+        prop::option::weighted(0.12, 0u8..3),
+        prop::bool::weighted(0.4),
+        vec(1usize..=8, 4).prop_shuffle(),
+    )
+        .prop_map(|(bodies, pats, picks, names, sabotage, with_skip, prios)| {
+            // subpattern i may reference earlier ones
+            let mut subs: Vec<(String, bool, Ast)> = Vec::new();
+            let mut depth: Vec<usize> = Vec::new();
+            for (i, (b, as_bytes)) in bodies.into_iter().enumerate() {
+                let earlier: Vec<String> = subs.iter().map(|s| s.0.clone()).collect();
+                let mut counter = i * 3;
+                let b = with_refs(b, &picks, &earlier, &mut counter);
+                // byte-string subpatterns only when the text is ASCII (valid as a b"" literal the same way)
+                let bytes = as_bytes && b.text().is_ascii();
+                let d = if count_refs(&b) > 0 { 1 + depth.iter().copied().max().unwrap_or(0) } else { 0 };
+                depth.push(d);
+                subs.push((names[i].clone(), bytes, b));
+            }
+            let defined: Vec<String> = subs.iter().map(|s| s.0.clone()).collect();
+            let mut variants = Vec::new();
+            let mut skips = Vec::new();
+            let mut max_depth = 0;
+            let mut total_refs = 0;
+            for (i, p) in pats.into_iter().enumerate() {
+                let mut counter = 5 + i * 7;
+                let mut a = with_refs(p, &picks, &defined, &mut counter);
+                if count_refs(&a) == 0 {
+                    // force one reference at start / middle / end
+                    let r = Ast::Ref(defined[i % defined.len()].clone());
+                    a = match i % 3 {
+                        0 => Ast::Cat(vec![r, a]),
+                        1 => Ast::Cat(vec![a.clone(), r, a]),
+                        _ => Ast::Cat(vec![a, r]),
+                    };
+                }
+                total_refs += count_refs(&a);
+                max_depth = max_depth.max(1 + depth.iter().copied().max().unwrap_or(0));
+                let inl = inline(&a, &subs);
+                let mut ps = PatSpec::regex(LitSpec::str(a.text()));
+                ps.inlined = Some(LitSpec::str(inl.text()));
+                ps.allow_greedy = true;
+                ps.priority = Some(prios[i % prios.len()] + 10 * i);
+                if with_skip && i == 0 {
+                    skips.push(ps);
+                } else {
+                    variants.push(vec![ps]);
+                }
+            }
+            if variants.is_empty() {
+                variants.push(vec![PatSpec::token(LitSpec::str("\u{2}"))]);
+            }
+            let _ = total_refs;
+            let mut subpatterns: Vec<crate::spec::SubSpec> = subs
+                .iter()
+                .map(|(n, bytes, b)| {
+                    let it = inline(b, &subs).text();
+                    crate::spec::SubSpec {
+                        name: n.clone(),
+                        lit: if *bytes { LitSpec::bytes(b.text().into_bytes()) } else { LitSpec::str(b.text()) },
+                        inlined: Some(if *bytes { LitSpec::bytes(it.into_bytes()) } else { LitSpec::str(it) }),
+                    }
+                })
+                .collect();
+            let mut must_reject = false;
+            match sabotage {
+                Some(0) => {
+                    // undefined name (in a regex pattern: #[token] literals are not scanned for references)
+                    if let Some(p) = skips.iter_mut().chain(variants.iter_mut().flat_map(|v| v.iter_mut())).find(|p| p.kind == crate::spec::PatKind::Regex) {
+                        p.lit = LitSpec::str(format!("{}(?&nope)", p.lit.text));
+                        must_reject = true;
+                    }
+                }
+                Some(1) if subpatterns.len() >= 2 => {
+                    // forward reference: first subpattern refers to the last
+                    let last = subpatterns.last().unwrap().name.clone();
+                    let first = &mut subpatterns[0];
+                    if !first.lit.bytes {
+                        first.lit = LitSpec::str(format!("{}(?&{last})", first.lit.text));
+                        must_reject = true;
+                    }
+                }
+                Some(2) => {
+                    // near-miss name (prefix of a defined one)
+                    if let Some(p) = skips.iter_mut().chain(variants.iter_mut().flat_map(|v| v.iter_mut())).find(|p| p.kind == crate::spec::PatKind::Regex) {
+                        p.lit = LitSpec::str(format!("(?&s){}", p.lit.text));
+                        must_reject = true;
+                    }
+                }
+                _ => {}
+            }
+            SubCase { def: DefSpec { utf8: true, subpatterns, skips, variants }, must_reject, max_ref_depth: max_depth }
+        })
+        .boxed()
+}
